@@ -717,8 +717,10 @@ class Interp:
                 if direct and issubclass(cls, tuple) and hasattr(cls, '_fields') and new is not None and not is_repo_func(new) \
                         and getattr(cls, '__module__', '').startswith('xlcalculator'):
                     direct = False            # a (typing.)NamedTuple of the repository: the generated __new__ only stores its fields
-                if direct and dataclasses.is_dataclass(cls) and is_repo_func(getattr(cls, '__post_init__', None)) \
+                if dataclasses.is_dataclass(cls) and is_repo_func(getattr(cls, '__post_init__', None)) \
                         and init is cls.__dict__.get('__init__') and is_repo_obj(object.__new__(cls)):
+                    # (whether or not an argument is symbolic: the repository's __post_init__ is code under verification, and the
+                    # contracts registered for what it calls must apply on concrete runs too)
                     # the generated __init__ of a repository dataclass: store the fields (defaults / factories for the
                     # rest), then run the repository's own __post_init__ - interpreted
                     try:
